@@ -253,8 +253,15 @@ def argv_strategy(draw, big=False):
         add('--phi', [num(draw(st.sampled_from([0.0, 90.0, -30.0]))), num(draw(st.sampled_from([45.0, 90.0, 360.0]))), num(str(draw(st.integers(1, 5))), 'n')])
     near = draw(st.integers(0, 3)) == 0
     if near:
-        add('--near-field', [num(round(draw(st.floats(-1, 1)) * lam, 2)) for _ in range(3)] + [num(draw(st.sampled_from([0.5, 0.1, 1.0, 0.0]))) for _ in range(3)]
-            + [num(str(draw(st.integers(1, 2))), 'n') for _ in range(3)])
+        nf_ = [num(round(draw(st.floats(-1, 1)) * lam, 2)) for _ in range(3)] + [num(draw(st.sampled_from([0.5, 0.1, 1.0, 0.0]))) for _ in range(3)] \
+            + [num(str(draw(st.integers(1, 2))), 'n') for _ in range(3)]
+        if contra and draw(st.integers(0, 2)) == 0:
+            # an axis at the edge of the floating-point range: the last point is finite, the next one is not
+            ax_ = draw(st.integers(0, 2))
+            s0_, i0_, c0_ = draw(st.sampled_from([('1e308', '1e308', '1'), ('1.7e308', '5e306', '2'), ('-1e308', '-1e308', '1'),
+                                                  ('9e307', '9e307', '2'), ('1e308', '7e307', '1')]))
+            nf_[ax_][0], nf_[3 + ax_][0], nf_[6 + ax_][0] = s0_, i0_, c0_
+        add('--near-field', nf_)
     for i in range(draw(st.sampled_from([0, 0, 1, 1, 2]))):
         add('--option', [[draw(st.sampled_from(['far-field', 'far-field-absolute', 'none'] + (['near-field'] if near or contra else []))), 's']])
     if draw(st.integers(0, 6)) == 0:
